@@ -122,25 +122,36 @@ def bounded(ctx: Ctx, d: int, workers: int, c: Optional[Counter] = None) -> Coun
     return c
 
 
-def priority(ctx: Ctx, names: List[str], c: Optional[Counter] = None) -> Counter:
-    """For each name: the schedule in which that thread is chosen only when no other thread is enabled; plus the round-robin schedule."""
+def priority(ctx: Ctx, names: List[str], c: Optional[Counter] = None, deep: bool = True, workers: int = 1) -> Counter:
+    """For each name: the schedule in which that thread is chosen only when no other thread is enabled; plus the round-robin schedule.
+    With deep=True each starvation schedule is run a second time with EVERY operation a scheduling point: the starved thread is then
+    held back at its queue and connection operations too (a stall in the middle of a hand-over, not only at a synchronisation call),
+    which the reduced search cannot produce because it runs those operations eagerly."""
     c = c or Counter()
     prims.POLLED.clear()
-    x = run_once(ctx, [], policy=prims.FairPolicy())
-    c.inc('executions')
-    c.inc('priority_schedules')
-    c.inc('points', len(x.points))
-    c.inc('steps', x.nsteps)
-    c.see('status', x.status)
-    ctx.judge(x, c, ['priority', '@fair'])
-    for nm in names:
-        x = run_once(ctx, [], policy=prims.PriorityPolicy(nm))
-        c.inc('executions')
-        c.inc('priority_schedules')
-        c.inc('points', len(x.points))
-        c.inc('steps', x.nsteps)
-        c.see('status', x.status)
-        ctx.judge(x, c, ['priority', nm])
+    run_once(ctx, [])            # finds out which queues are polled (inherited by the workers)
+    jobs = [('@fair', False)] + [(nm, False) for nm in names] + ([(nm, True) for nm in names] if deep and not ctx.all_visible else [])
+
+    def work(job):
+        nm, dp = job
+        cc = Counter()
+        saved = ctx.all_visible
+        ctx.all_visible = saved or dp
+        try:
+            x = run_once(ctx, [], policy=prims.FairPolicy() if nm == '@fair' else prims.PriorityPolicy(nm))
+        finally:
+            ctx.all_visible = saved
+        cc.inc('executions')
+        cc.inc('priority_schedules')
+        if dp:
+            cc.inc('deep_starvation_schedules')
+        cc.inc('points', len(x.points))
+        cc.inc('steps', x.nsteps)
+        cc.see('status', x.status)
+        ctx.judge(x, cc, ['priority-deep' if dp else 'priority', nm])
+        return cc
+    for cc in pmap(work, jobs, workers):
+        c.merge(cc)
     return c
 
 
